@@ -1,5 +1,6 @@
 import FV.Props.Catalog
 import FV.C05C06
+import FV.WalkAll
 /-! # C02 — consistent view (first part)
 
 (b) the returned reference covers at most the given slice; (d) the value's own bytes validate again.
@@ -26,6 +27,13 @@ theorem C02_truncation_validates (t : Ty) (h : t.WF) (s : Slice) (hv : t.dict.va
   obtain ⟨h1, _⟩ := F.loc s z' ha hl hu hz (s.take k) rfl (by simp only [Slice.len_take]; omega)
     (by simp only [Slice.take, List.take_take]; congr 1; omega)
   exact validate_ok_iff.2 ⟨by simpa using ha, by simp only [Slice.len_take]; omega, h1⟩
+
+/-- **C02 (accessors).** When `from_bytes` succeeds, the deep read through the safe accessors succeeds: every length, tag, offset
+and element it follows lies inside the given slice (a read outside it is a fault of the model), for every type and slice. -/
+theorem C02_deep_read_total (t : Ty) (h : t.WF) (s : Slice) (hv : t.dict.validate s = .ok ()) :
+    ∃ v, t.dict.walk s = .ok v := by
+  obtain ⟨_, hl, hu⟩ := validate_ok_iff.1 hv
+  exact (Ty.walkLaw t h).total s hl hu
 
 example : E1.WF ∧ E1.dict.validate ⟨0, [2,0,0,0, 1,0, 1,0, 5,0,0,0, 9,9,9,9]⟩ = .ok () := ⟨E1_wf, by decide⟩
 end FV.Props
